@@ -28,13 +28,14 @@ def handleC13Groups : Sexp → Option Sexp
           let frag :=
             if InFragmentPy pythonPrec Generated.printPrec e then "in"
             else if InFragmentPyFlat pythonPrec Generated.printPrec e then "flat"
-            else if Syntax.InFragment pythonPrec Generated.printPrec e
-                || Syntax.InFragmentFlat pythonPrec Generated.printPrec e then "out-not"
+            else if !cseShapeOk e then "out-cse"
+            else if Syntax.InFragment pythonPrec Generated.printPrec (stripCse e)
+                || Syntax.InFragmentFlat pythonPrec Generated.printPrec (stripCse e) then "out-not"
             else "out"
           let back := match parseTop pythonPrec 0 (toks ps) with
             | .error err => pErrToSexp err
             | .ok e' =>
-              if flattenAssoc e' == flattenAssoc e then .atom "same"
+              if flattenAssoc e' == flattenAssoc (stripCse e) then .atom "same"
               else Sexp.mk "differ" [(flattenAssoc e').toSexp]
           Sexp.mk "groups" [.atom frag, Sexp.str (render ps), .list ((toks ps).map tokToSexp), back])
   | _ => none
